@@ -168,7 +168,8 @@ pub fn watch<R>(f: impl FnOnce() -> R) -> R {
 pub fn catch<R>(f: impl FnOnce() -> R) -> Result<R, String> {
     install();
     QUIET.with(|q| q.set(q.get() + 1));
-    let nested = QUIET.with(|q| q.get()) > 1 || SLOT.with(|s| s.since.load(std::sync::atomic::Ordering::Relaxed)) != 0;
+    // nested = some enclosing catch / watch already runs the clock (an enclosing catch_long does not)
+    let nested = SLOT.with(|s| s.since.load(std::sync::atomic::Ordering::Relaxed)) != 0;
     if !nested {
         SLOT.with(|s| s.since.store(TICK.load(std::sync::atomic::Ordering::Relaxed), std::sync::atomic::Ordering::Relaxed));
     }
@@ -176,6 +177,16 @@ pub fn catch<R>(f: impl FnOnce() -> R) -> Result<R, String> {
     if !nested {
         SLOT.with(|s| s.since.store(0, std::sync::atomic::Ordering::Relaxed));
     }
+    QUIET.with(|q| q.set(q.get() - 1));
+    r.map_err(|_| LAST.with(|l| l.borrow().clone()))
+}
+
+/// Like [`catch`], but without the non-termination watch: for a whole phase of a check (minutes of legitimate work made of
+/// many calls), where only the panic is to be turned into a value.
+pub fn catch_long<R>(f: impl FnOnce() -> R) -> Result<R, String> {
+    install();
+    QUIET.with(|q| q.set(q.get() + 1));
+    let r = panic::catch_unwind(AssertUnwindSafe(f));
     QUIET.with(|q| q.set(q.get() - 1));
     r.map_err(|_| LAST.with(|l| l.borrow().clone()))
 }
